@@ -418,6 +418,11 @@ def main_wrapper(prop, fn):
     except SystemExit as ex:
         print("BROKEN %s: %s" % (prop, ex))
         rc = 2
+    except Exception as ex:      # a failure of the machinery itself is never reported as a verdict about the code
+        import traceback
+        traceback.print_exc()
+        print("BROKEN %s: %s: %s" % (prop, type(ex).__name__, ex))
+        rc = 2
     finally:
         if not os.environ.get("VERIF_KEEP"):
             work.cleanup()
